@@ -2,6 +2,8 @@ package enum
 
 import (
 	"crypto/sha256"
+	"fmt"
+	"massnet.org/mass-wallet/masswallet/keystore/wordlists"
 	"math/big"
 
 	"github.com/massnetorg/mass-core/massutil"
@@ -103,4 +105,28 @@ func (w *RefWallet) SecretMaterial(n int) map[string][]byte {
 		m["private key of address "+string(rune('0'+i))] = ser256(c.priv)
 	}
 	return m
+}
+
+// ShortChildKeyMnemonic searches (deterministically) for a 12-word mnemonic whose wallet,
+// under passphrase pass, has an address among the first n external indexes whose child
+// PRIVATE key has a leading zero byte while no scalar on the hardened part of the path is
+// short (that would be the known C14 deviation). Such leaf keys are stored unpadded by
+// the implementation, so every consumer must pad them again. Returns the mnemonic and the index.
+func ShortChildKeyMnemonic(pass string, n uint32) (string, uint32, error) {
+	limit := new(big.Int).Lsh(big.NewInt(1), 248)
+	for ctr := 0; ctr < 5000; ctr++ {
+		h := sha256.Sum256([]byte{byte(ctr), byte(ctr >> 8), 'z', 'k'})
+		mn := refEncode(h[:16], wordlists.English)
+		w, err := NewRefWallet(mn, pass)
+		if err != nil || w.Affected || len(w.acct.priv.Bytes()) < 32 || len(w.ext.priv.Bytes()) < 32 {
+			continue
+		}
+		for i := uint32(0); i < n; i++ {
+			a, err := w.Addr(i)
+			if err == nil && a.Priv.Cmp(limit) < 0 {
+				return mn, i, nil
+			}
+		}
+	}
+	return "", 0, fmt.Errorf("no mnemonic with a short leaf key found")
 }
